@@ -57,6 +57,36 @@ where
     TimesFd::new(u, v, w)
 }
 
+fn floor_div(a: isize, b: isize) -> isize {
+    let q = a / b;
+    if a % b != 0 && ((a < 0) != (b < 0)) {
+        q - 1
+    } else {
+        q
+    }
+}
+
+fn ceil_div(a: isize, b: isize) -> isize {
+    let q = a / b;
+    if a % b != 0 && ((a < 0) == (b < 0)) {
+        q + 1
+    } else {
+        q
+    }
+}
+
+/// Bounds of { n / d : n in nmin..=nmax, d in dmin..=dmax } rounded outwards to integers, or
+/// None when the divisor interval contains zero.
+fn quotient_bounds(nmin: isize, nmax: isize, dmin: isize, dmax: isize) -> Option<(isize, isize)> {
+    if dmin <= 0 && dmax >= 0 {
+        return None;
+    }
+    let corners = [(nmin, dmin), (nmin, dmax), (nmax, dmin), (nmax, dmax)];
+    let lo = corners.iter().map(|(n, d)| floor_div(*n, *d)).min().unwrap();
+    let hi = corners.iter().map(|(n, d)| ceil_div(*n, *d)).max().unwrap();
+    Some((lo, hi))
+}
+
 #[derive(Derivative)]
 #[derivative(Debug(bound = "U: User"))]
 pub struct TimesFdConstraint<U, E>
@@ -151,33 +181,32 @@ where
                 // intersected with the current domain of w in .process_domain()-call.
                 //
                 // Same application of constraining domain is done for the other two variables.
-                //   w = u * v  =>  [umin * vmin .. umax * vmax]
-                //   u = w / v  =>  [wmin / vmax .. wmax / vmin]
-                //   v = w / u  =>  [wmin / umax .. wmax / umin]
                 //
-                // The constraint is not dropped until all variables converge into numbers.
+                // The interval bounds take the signs into account: the product bounds are the
+                // extremes of the four corner products, and a quotient only bounds a factor when
+                // the divisor interval does not contain zero.
+                //
+                // The constraint is not dropped until all variables converge into numbers. It
+                // goes back to the store first, so that it is re-run if the narrowing below
+                // binds one of its operands.
+                let products = [
+                    umin.saturating_mul(vmin),
+                    umin.saturating_mul(vmax),
+                    umax.saturating_mul(vmin),
+                    umax.saturating_mul(vmax),
+                ];
+                let wlo = *products.iter().min().unwrap();
+                let whi = *products.iter().max().unwrap();
+                let (ulo, uhi) = quotient_bounds(wmin, wmax, vmin, vmax).unwrap_or((umin, umax));
+                let (vlo, vhi) = quotient_bounds(wmin, wmax, umin, umax).unwrap_or((vmin, vmax));
+                if ulo > uhi || vlo > vhi {
+                    return Err(());
+                }
                 Ok(state
-                    .process_domain(
-                        &wwalk,
-                        Rc::new(FiniteDomain::from(
-                            umin.saturating_mul(vmin)..=umax.saturating_mul(vmax),
-                        )),
-                    )?
-                    .process_domain(
-                        &uwalk,
-                        Rc::new(FiniteDomain::from(
-                            wmin.checked_div(vmax).unwrap_or(umin)
-                                ..=wmax.checked_div(vmin).unwrap_or(umax),
-                        )),
-                    )?
-                    .process_domain(
-                        &vwalk,
-                        Rc::new(FiniteDomain::from(
-                            wmin.checked_div(umax).unwrap_or(vmin)
-                                ..=wmax.checked_div(umin).unwrap_or(vmax),
-                        )),
-                    )?
-                    .with_constraint(self))
+                    .with_constraint(self.clone())
+                    .process_domain(&wwalk, Rc::new(FiniteDomain::from(wlo..=whi)))?
+                    .process_domain(&uwalk, Rc::new(FiniteDomain::from(ulo..=uhi)))?
+                    .process_domain(&vwalk, Rc::new(FiniteDomain::from(vlo..=vhi)))?)
             }
             // If all operators do not yet have domains, then keep the constraint until it can
             // be used to constrain some domains.
